@@ -535,7 +535,11 @@ def check_trans(mtjs, combo_i):
     if st != 0:
         bad('cli-failed', 'exit status %r %s' % (st, cli.describe(exc)))
         return out
-    got = open(dest, encoding='utf-8').read()
+    try:
+        got = codecs.read_out(dest)
+    except codecs.DecodeError as e:
+        bad('undecodable', str(e))
+        return out
     if got != api_text:
         i = next((i for i in range(min(len(got), len(api_text))) if got[i] != api_text[i]), min(len(got), len(api_text)))
         bad('cli-differs-from-api', 'destination file differs from the API pipeline at offset %d: %r vs %r'
